@@ -326,8 +326,8 @@ class SpatialM6(SpatialVector):
         # v = obj.vw;
         # # vcross = [ skew(w) skew(v); zeros(3,3) skew(w) ]
         
-        v = self.A
-        vcross = np.array([
+        def vcross(v):
+            return np.array([
                             [ 0,    -v[5],  v[4],   0,     -v[2],   v[1]  ],
                             [ v[5],  0,    -v[3],   v[2],   0,     -v[0]  ],
                             [-v[4],  v[3],  0,     -v[1],   v[0],   0     ],
@@ -335,10 +335,12 @@ class SpatialM6(SpatialVector):
                             [ 0,     0,     0,      v[5],   0,    -v[3]   ],
                             [ 0,     0,     0,     -v[4],   v[3],   0     ]
                         ])
-        if isinstance(other, SpatialVelocity):
-            return SpatialAcceleration(vcross @ other.A)  # x operator (crm)
+        if isinstance(other, SpatialM6):
+            # x operator (crm), applies to any motion vector
+            return SpatialAcceleration(self.binop(other, lambda x, y: vcross(x) @ y))
         elif isinstance(other, SpatialF6):
-            return SpatialForce(-vcross.T @ other.A)      # x* operator (crf)
+            # x* operator (crf)
+            return SpatialForce(self.binop(other, lambda x, y: -vcross(x).T @ y))
         else:
             raise TypeError('type mismatch')
         
